@@ -15,7 +15,14 @@ func tipInfoRecur(t *tree.Tree, f *os.File, id int, cur *tree.Node, prev *tree.N
 		cur = t.Root()
 	}
 	if cur.Tip() {
-		f.WriteString(fmt.Sprintf("%d\t%d\t%d\t%s\t%.8f\t%.8f\n", id, cur.Id(), cur.Nneigh(), cur.Name(), prevEdge.Length(), height))
+		// The root may be a tip: its branch is then its only one
+		l := tree.NIL_LENGTH
+		if prevEdge != nil {
+			l = prevEdge.Length()
+		} else if len(cur.Edges()) == 1 {
+			l = cur.Edges()[0].Length()
+		}
+		f.WriteString(fmt.Sprintf("%d\t%d\t%d\t%s\t%.8f\t%.8f\n", id, cur.Id(), cur.Nneigh(), cur.Name(), l, height))
 	}
 	for i, n := range cur.Neigh() {
 		if n != prev {
